@@ -172,7 +172,8 @@ Section Ps.
       match items with
       | [] => dict_flush pend d
       | (None, e) :: r =>
-          bind (ev e) (fun v => bind (dict_flush pend d) (fun d1 => bind (to_dict v) (fun m => ps_dict r [] (dict_update m d1))))
+          (* the pending run of pairs is stored before the mapping expression is evaluated *)
+          bind (dict_flush pend d) (fun d1 => bind (ev e) (fun v => bind (to_dict v) (fun m => ps_dict r [] (dict_update m d1))))
       | (Some k, e) :: r =>
           bind (if d_dict_value_first cfg
                 then bind (ev e) (fun v => bind (ev k) (fun kv => ret (kv, v)))
@@ -244,9 +245,9 @@ Section Ps.
 
     (* vals = [*(iter(val))]: iter() is applied by the code, and once more by the list display *)
     Definition ps_iter_all (val : value) : M (list value) :=
-      match val with
-      | VList _ | VTuple _ | VSet _ | VDict _ | VSlice _ _ _ => to_list f val
-      | _ => bind (do_prim PIter [val]) (fun it => to_list f it)
+      match iter_kind val with
+      | ItHost => bind (do_prim PIter [val]) (fun it => to_list f it)
+      | _ => to_list f val
       end.
     Definition ps_unpack (elts : list expr) (val : value) : M unit :=
       let got_star := if existsb is_starred elts then 1 else 0 in
